@@ -237,6 +237,8 @@ def describe(case):
         return "concurrent-mailbox,threads=%d,cap=%d" % (case[4], case[2])
     if k == 3:
         return "concurrent-group,threads=%d" % case[3 + 2 * case[2]]
+    if k == 4:
+        return "forced-schedule:late-push"
     return "other"
 
 
@@ -248,4 +250,6 @@ def nontrivial(case, out):
         return any(100 <= x < 1100 for x in out)       # some handler ran
     if k == 2:
         return any(out[1 + 3 * i] == 7 for i in range(out[0]))
+    if k == 4:
+        return len(out) == 3 and out[0] == 1
     return out[0] > 0
